@@ -188,6 +188,22 @@ Section WithDigest.
     | None => (5, None, w')
     end.
 
+  (* checkout of a directory object (a Tree built in memory: its own id d and entries name |-> id,
+     pairwise distinct ids) into a fresh workspace path: diff() asks _cache_check once per distinct
+     id (the root's and every entry's), each time against the store as it is NOW; every entry is
+     then linked; the entries whose source is missing are collected into one CheckoutError *)
+  Definition check_all (w : world) (os : list oid) : world :=
+    fold_left (fun w o => snd (check w o)) os w.
+
+  Definition checkout_dir (w : world) (d : oid) (ents : list (list N * oid))
+    : N * list (list N * bytes) * world :=
+    let w' := check_all w (d :: map snd ents) in
+    let got := flat_map (fun e => match lookup (snd e) (w_objs w') with
+                                  | Some ob => [(fst e, o_bytes ob)]
+                                  | None => []
+                                  end) ents in
+    (if forallb (fun e => has w' (snd e)) ents then 0 else 5, got, w').
+
   (* ---- HashFileDB.add(paths, fs, oids, verify=..., on_error=...) *)
   Definition item := (oid * bytes * token)%type.     (* destination id, source bytes, token of the copy *)
   Definition it_oid (i : item) : oid := fst (fst i).
@@ -232,6 +248,7 @@ Section WithDigest.
   | OCheck (o : oid)
   | OExist (os : list oid)
   | OCheckout (o : oid)
+  | OCheckoutDir (d : oid) (ents : list (list N * oid))
   | OSet (o : oid) (b : bytes) (m : N) (t : token)   (* environment: tamper / plant / touch / chmod *)
   | ODel (o : oid)                                     (* environment: the object file is deleted *)
   | OHash (o : oid)                                    (* hash_file(path of o, ..., state) *)
@@ -244,6 +261,7 @@ Section WithDigest.
   | OAdded (n : N) (errs : list oid)
   | OExists (l : list oid)
   | OCheckedOut (r : N) (b : option bytes)
+  | OCheckedOutDir (r : N) (files : list (list N * bytes))
   | OHashed (v : option oid).
 
   Definition step (w : world) (p : op) : world * out :=
@@ -252,6 +270,8 @@ Section WithDigest.
     | OCheck o => let r := check w o in (snd r, ORes (fst r))
     | OExist os => let r := oids_exist w os in (snd r, OExists (fst r))
     | OCheckout o => let r := checkout w o in (snd r, OCheckedOut (fst (fst r)) (snd (fst r)))
+    | OCheckoutDir d ents =>
+        let r := checkout_dir w d ents in (snd r, OCheckedOutDir (fst (fst r)) (snd (fst r)))
     | OSet o b m t => (with_objs w (set o (Ob b m t) (w_objs w)), ONone)
     | ODel o => (with_objs w (remove o (w_objs w)), ONone)
     | OHash o =>
@@ -284,6 +304,10 @@ Section WithDigest.
     | OAdded n errs => VL [VN 2; VN n; VL (map VB errs)]
     | OExists l => VL [VN 3; VL (map VB l)]
     | OCheckedOut r b => VL [VN 4; VN r; enc_option VB b]
+    | OCheckedOutDir r fs =>
+        VL [VN 6; VN r;
+            VL (map (fun nb => VL [VB (fst nb); VB (snd nb)])
+                    (sort_by (fun a b => lex_leb (fst a) (fst b)) fs))]
     | OHashed v => VL [VN 5; enc_option VB v]
     end.
 
